@@ -496,6 +496,7 @@ func (c *Ctx) ruleNetDecoders() {
 
 func (c *Ctx) ruleKeystore() {
 	dir := "lib/keystore"
+	c.doc("R-NOALIAS", "Decrypt leaves its input intact: AEAD.Open's destination is nil or a fresh buffer, never a slice of the ciphertext argument, and no store targets the argument (decrypting the same stored ciphertext twice, or with the right password after a wrong one, must behave the same)")
 	c.doc("R-BOUNDS", "Decrypt: data[:nonceSize] / data[nonceSize:] are dominated by the false edge of len(data) < nonceSize")
 	d := c.fn(dir, "Decrypt")
 	if d != nil {
@@ -537,6 +538,38 @@ func (c *Ctx) ruleKeystore() {
 			}
 		}
 		c.ob("R-CALLEE", "Decrypt:plaintext-only-on-authenticated-open", d.Pos(), okOpen, "Decrypt must return the plaintext only on the success edge of AEAD.Open (a wrong password or modified ciphertext is an error)")
+		// the stored ciphertext is an input: neither Open's destination nor any store may alias it
+		if open != nil && len(open.Call.Args) >= 1 {
+			dst := open.Call.Args[0]
+			alias := false
+			if !isNilConst(dst) {
+				for v := range backwardSlice(dst, nil) {
+					if p, ok := v.(*ssa.Parameter); ok && p.Parent() == d {
+						alias = true
+					}
+				}
+			}
+			c.ob("R-NOALIAS", "Decrypt:Open-destination-is-not-the-input", open.Pos(), !alias, "AEAD.Open decrypts into a buffer carved out of Decrypt's own input: the caller's ciphertext is overwritten (zeroed on an authentication failure), so decrypting the same stored ciphertext again — e.g. the right password after a wrong one — fails")
+		}
+		writes := 0
+		eachInstr(d, func(_ *ssa.BasicBlock, _ int, in ssa.Instruction) {
+			if st, ok := in.(*ssa.Store); ok {
+				if ia, ok := st.Addr.(*ssa.IndexAddr); ok {
+					base := ia.X
+					for {
+						if sl, ok := base.(*ssa.Slice); ok {
+							base = sl.X
+							continue
+						}
+						break
+					}
+					if p, ok := base.(*ssa.Parameter); ok && p.Parent() == d {
+						writes++
+					}
+				}
+			}
+		})
+		c.ob("R-NOALIAS", "Decrypt:no-store-into-the-input", d.Pos(), writes == 0, fmt.Sprintf("Decrypt stores into its ciphertext/password argument (%d stores)", writes))
 	}
 	if g := c.fn(dir, "gcmFromPassphrase"); g != nil {
 		names := map[string]bool{}
